@@ -17,6 +17,7 @@ import (
 	realos "os"
 	"path/filepath"
 	"sort"
+	"strconv"
 	"strings"
 	"syscall"
 	"testing"
@@ -88,7 +89,7 @@ func (p *pair) same(what string, sErr, rErr error, sVal, rVal string) {
 	line := fmt.Sprintf("#%d %s -> %s | %s", p.step, what, re, rVal)
 	p.trace = append(p.trace, line)
 	if se != re || sVal != rVal {
-		for _, l := range p.trace[max(0, len(p.trace)-25):] {
+		for _, l := range p.trace[max(0, len(p.trace)-40):] {
 			p.t.Log(l)
 		}
 		p.t.Fatalf("step %d %s\n  shim: %s | %s\n  real: %s | %s", p.step, what, se, sVal, re, rVal)
@@ -321,6 +322,11 @@ func (p *pair) fileStep() {
 		sb, rb := make([]byte, n), make([]byte, n)
 		sn, se := f.s.Read(sb)
 		rn, re := f.r.Read(rb)
+		if f.dir && se != nil && re != nil {
+			// read(2) on a directory: EISDIR, or EINVAL once the descriptor was
+			// used for getdents on some file systems; only "fails" is compared
+			return
+		}
 		p.same(fmt.Sprintf("Read%s(%d)", tag, n), se, re, fmt.Sprint(sn, string(sb[:sn])), fmt.Sprint(rn, string(rb[:rn])))
 	case 2, 3, 4:
 		data := p.randData()
@@ -345,6 +351,9 @@ func (p *pair) fileStep() {
 		sb, rb := make([]byte, n), make([]byte, n)
 		sn, se := f.s.ReadAt(sb, off)
 		rn, re := f.r.ReadAt(rb, off)
+		if f.dir && se != nil && re != nil {
+			return
+		}
 		p.same(fmt.Sprintf("ReadAt%s(%d,%d)", tag, n, off), se, re, fmt.Sprint(sn, string(sb[:sn])), fmt.Sprint(rn, string(rb[:rn])))
 	case 8:
 		data, off := p.randData(), int64(r.IntN(60))-2
@@ -361,35 +370,57 @@ func (p *pair) fileStep() {
 	case 11:
 		p.same(fmt.Sprintf("Sync%s", tag), f.s.Sync(), f.r.Sync(), "", "")
 	case 12:
-		n := r.IntN(4) - 1
-		switch r.IntN(3) {
-		case 0:
-			sl, se := f.s.Readdirnames(n)
-			rl, re := f.r.Readdirnames(n)
-			sv, rv := fmt.Sprint(len(sl)), fmt.Sprint(len(rl))
-			if n <= 0 {
-				sort.Strings(sl)
-				sort.Strings(rl)
-				sv, rv = fmt.Sprint(sl), fmt.Sprint(rl)
-			}
-			p.same(fmt.Sprintf("Readdirnames%s(%d)", tag, n), se, re, sv, rv)
-		case 1:
-			sl, se := f.s.Readdir(n)
-			rl, re := f.r.Readdir(n)
-			sv, rv := fmt.Sprint(len(sl)), fmt.Sprint(len(rl))
-			if n <= 0 {
-				sv, rv = listSig(sl), listSig(rl)
-			}
-			p.same(fmt.Sprintf("Readdir%s(%d)", tag, n), se, re, sv, rv)
-		default:
-			sl, se := f.s.ReadDir(n)
-			rl, re := f.r.ReadDir(n)
-			sv, rv := fmt.Sprint(len(sl)), fmt.Sprint(len(rl))
-			if n <= 0 {
-				sv, rv = listSig(sl), listSig(rl)
-			}
-			p.same(fmt.Sprintf("File.ReadDir%s(%d)", tag, n), se, re, sv, rv)
+		// Directory order is arbitrary and a partially read directory that is
+		// modified meanwhile may legitimately show either state, so a directory
+		// handle is read once, completely, without interleaved operations.
+		if f.dir && f.dead {
+			return
 		}
+		f.dead = true
+		n := r.IntN(5) - 1
+		kind := r.IntN(3)
+		var sAll, rAll []string
+		var se, re error
+		calls := 0
+		for {
+			calls++
+			var sl, rl []string
+			switch kind {
+			case 0:
+				sl, se = f.s.Readdirnames(n)
+				rl, re = f.r.Readdirnames(n)
+			case 1:
+				var si, ri []fs.FileInfo
+				si, se = f.s.Readdir(n)
+				ri, re = f.r.Readdir(n)
+				for _, e := range si {
+					sl = append(sl, fmt.Sprintf("%s:%v:%v", e.Name(), e.IsDir(), e.Mode()))
+				}
+				for _, e := range ri {
+					rl = append(rl, fmt.Sprintf("%s:%v:%v", e.Name(), e.IsDir(), e.Mode()))
+				}
+			default:
+				var si, ri []fs.DirEntry
+				si, se = f.s.ReadDir(n)
+				ri, re = f.r.ReadDir(n)
+				for _, e := range si {
+					sl = append(sl, fmt.Sprintf("%s:%v:%v", e.Name(), e.IsDir(), e.Type()))
+				}
+				for _, e := range ri {
+					rl = append(rl, fmt.Sprintf("%s:%v:%v", e.Name(), e.IsDir(), e.Type()))
+				}
+			}
+			if n > 0 && (len(sl) != len(rl) || len(sl) > n) {
+				p.same(fmt.Sprintf("readdir%d%s(%d) call %d: chunk sizes", kind, tag, n, calls), se, re, fmt.Sprint(len(sl)), fmt.Sprint(len(rl)))
+			}
+			sAll, rAll = append(sAll, sl...), append(rAll, rl...)
+			if n <= 0 || se != nil || re != nil || calls > 50 {
+				break
+			}
+		}
+		sort.Strings(sAll)
+		sort.Strings(rAll)
+		p.same(fmt.Sprintf("readdir%d%s(%d) x%d", kind, tag, n, calls), se, re, fmt.Sprint(sAll), fmt.Sprint(rAll))
 	default:
 		p.closeOne(i)
 		if r.IntN(3) == 0 { // use after close
@@ -456,9 +487,16 @@ func simTree(d *simfs.FS, root string) []string {
 }
 
 func TestDifferentialAgainstRealOS(t *testing.T) {
-	seqs, steps := 300, 250
+	seqs, steps, base := 300, 250, 0
 	if testing.Short() {
 		seqs = 60
+	}
+	// SIMFS_DIFF_SEQS / SIMFS_DIFF_SEED widen or move the sample by hand
+	if v, err := strconv.Atoi(realos.Getenv("SIMFS_DIFF_SEQS")); err == nil && v > 0 {
+		seqs = v
+	}
+	if v, err := strconv.Atoi(realos.Getenv("SIMFS_DIFF_SEED")); err == nil {
+		base = v
 	}
 	um := syscall.Umask(0)
 	syscall.Umask(um)
@@ -467,7 +505,7 @@ func TestDifferentialAgainstRealOS(t *testing.T) {
 		tmp := t.TempDir()
 		// both roots sit three levels below a directory we own, so that the
 		// generated ".." components can never leave the sandbox
-		p := &pair{t: t, rng: rand.New(rand.NewPCG(uint64(seq), 42)), simRoot: simTop + "/r1/r2/r3", realRoot: tmp + "/r1/r2/r3"}
+		p := &pair{t: t, rng: rand.New(rand.NewPCG(uint64(base+seq), 42)), simRoot: simTop + "/r1/r2/r3", realRoot: tmp + "/r1/r2/r3"}
 		if err := realos.MkdirAll(p.realRoot, 0o755); err != nil {
 			t.Fatal(err)
 		}
